@@ -21,9 +21,9 @@ package c20
 import (
 	"encoding/hex"
 	"fmt"
-	"hash/fnv"
 	"os"
 	"reflect"
+	"runtime/debug"
 	"sort"
 	"strings"
 	"sync"
@@ -110,7 +110,7 @@ func catalogue(thorough bool) []inst {
 	}
 	for _, in := range listed() {
 		add(in)
-		if in.kind == "v4-packet" {
+		if in.kind == "v4-packet" && (thorough || !strings.HasPrefix(in.name, "modifier/")) {
 			addV4Decoded(in)
 		}
 	}
@@ -164,7 +164,7 @@ func catalogue(thorough bool) []inst {
 	msgs := corpus6.Messages(thorough)
 	stride := 1
 	if !thorough {
-		stride = 2 // deterministic subset: every second case of the quick corpus (all families are kept)
+		stride = 3 // deterministic subset: every third case of the quick corpus (3 is coprime to the family periods 2, 4 and 5, so every family, depth, inner kind and mask is kept)
 	}
 	for i := 0; i < len(msgs); i += stride {
 		mc := msgs[i]
@@ -194,563 +194,6 @@ func catalogue(thorough bool) []inst {
 	return out
 }
 
-// ------------------------------------------------------------------ engine
-
-type bounds struct {
-	full      int   // max sequence length over the full action set
-	core      int   // max sequence length over the core
-	maxExec   int64 // per-value cap on method executions for the length-2 full search
-	heavySize int   // encoded size above which a value gets the reduced bounds
-}
-
-type diff struct {
-	observer int // index into acts, -1 for a held argument
-	heldName string
-	step     int // ≥0: the result of path step `step` differed; -1: seen in the closing snapshot
-	want     string
-	got      string
-}
-
-type outcome struct {
-	state uint64
-	diffs []diff
-	panic any
-	stack string
-	pstep int
-}
-
-type explorer struct {
-	c      *fw.Ctx
-	idx    int
-	in     inst
-	acts   []roview.Action
-	ok     []bool
-	bad    []bool
-	base   []string
-	hbase  []string
-	hnames []string
-	s0     uint64
-
-	states  map[uint64]bool
-	trans   map[[3]uint64]bool
-	stateOf map[string]uint64
-	paths   int64
-	execs   int64
-	viol    int
-}
-
-func (e *explorer) snapshotHash(texts []string) uint64 {
-	h := fnv.New64a()
-	for _, t := range texts {
-		h.Write([]byte(t))
-		h.Write([]byte{0})
-	}
-	return h.Sum64()
-}
-
-func pathKey(p []int) string {
-	var b strings.Builder
-	for _, x := range p {
-		fmt.Fprintf(&b, "%d,", x)
-	}
-	return b.String()
-}
-
-// run replays path on a fresh value, then takes the full snapshot.
-func (e *explorer) run(path []int) outcome {
-	var out outcome
-	out.pstep = -1
-	v, hs := e.in.build()
-	e.paths++
-	for k, ai := range path {
-		r := roview.Exec(v, e.acts[ai])
-		e.execs++
-		if r.Panic != nil {
-			out.panic, out.stack, out.pstep = r.Panic, r.Stack, k
-			return out
-		}
-		if r.Text != e.base[ai] {
-			out.diffs = append(out.diffs, diff{observer: ai, step: k, want: e.base[ai], got: r.Text})
-		}
-	}
-	texts := make([]string, 0, len(e.acts)+len(hs))
-	for bi, a := range e.acts {
-		if !e.ok[bi] {
-			continue
-		}
-		r := roview.Exec(v, a)
-		e.execs++
-		if r.Panic != nil {
-			out.panic, out.stack, out.pstep = r.Panic, r.Stack, len(path)
-			return out
-		}
-		texts = append(texts, r.Text)
-		if r.Text != e.base[bi] {
-			out.diffs = append(out.diffs, diff{observer: bi, step: -1, want: e.base[bi], got: r.Text})
-		}
-	}
-	for i, h := range hs {
-		t := h.get()
-		texts = append(texts, t)
-		if i < len(e.hbase) && t != e.hbase[i] {
-			out.diffs = append(out.diffs, diff{observer: -1, heldName: h.name, step: -1, want: e.hbase[i], got: t})
-		}
-	}
-	out.state = e.snapshotHash(texts)
-	return out
-}
-
-func (e *explorer) record(path []int, out outcome) {
-	e.states[out.state] = true
-	e.stateOf[pathKey(path)] = out.state
-	if len(path) > 0 {
-		from := e.stateOf[pathKey(path[:len(path)-1])]
-		e.trans[[3]uint64{from, uint64(path[len(path)-1]), out.state}] = true
-	}
-}
-
-func order(idx int, path []int) int64 {
-	o := int64(len(path))*1_000_000_000 + int64(idx)*10_000
-	if len(path) > 0 {
-		o += int64(path[len(path)-1])
-	}
-	return o
-}
-
-func (e *explorer) exprs(path []int) string {
-	parts := make([]string, len(path))
-	for i, ai := range path {
-		parts[i] = "v" + e.acts[ai].Expr
-	}
-	return strings.Join(parts, " ; ")
-}
-
-func short(s string, n int) string {
-	if len(s) <= n {
-		return s
-	}
-	return s[:n] + "…"
-}
-
-// bestDiff picks the difference that reads best in a report: the value's own
-// ToBytes, then any direct ToBytes, then a caller-held argument, then String.
-func (e *explorer) bestDiff(ds []diff) diff {
-	score := func(d diff) int {
-		if d.observer < 0 {
-			return 2
-		}
-		a := e.acts[d.observer]
-		switch {
-		case a.Expr == ".ToBytes()":
-			return 0
-		case a.Calls == 1 && a.LastName() == "ToBytes":
-			return 1
-		case a.Calls == 1 && a.LastName() == "String":
-			return 3
-		case a.Calls == 1:
-			return 4
-		}
-		return 5
-	}
-	best := ds[0]
-	for _, d := range ds[1:] {
-		if score(d) < score(best) {
-			best = d
-		}
-	}
-	return best
-}
-
-func (e *explorer) goTest(path []int, d diff) string {
-	var b strings.Builder
-	b.WriteString("// imports: bytes, encoding/hex, fmt, net, strings, testing, time, github.com/insomniacslk/dhcp/{dhcpv4,dhcpv6,iana,rfc1035label}\n")
-	b.WriteString("func show(a ...any) string { return fmt.Sprintf(\"%#v\", a) }\n\n")
-	b.WriteString("func TestC20Replay(t *testing.T) {\n")
-	for _, l := range strings.Split(e.in.src, "\n") {
-		b.WriteString("\t" + l + "\n")
-	}
-	obs := d.heldName
-	if d.observer >= 0 {
-		obs = "v" + e.acts[d.observer].Expr
-	}
-	fmt.Fprintf(&b, "\tbefore := show(%s)\n", obs)
-	for _, ai := range path {
-		fmt.Fprintf(&b, "\t_ = show(v%s) // read-only call\n", e.acts[ai].Expr)
-	}
-	fmt.Fprintf(&b, "\tafter := show(%s)\n", obs)
-	b.WriteString("\tif before != after {\n\t\tt.Fatalf(\"a read-only call changed the value:\\n before %s\\n after  %s\", before, after)\n\t}\n}\n")
-	return b.String()
-}
-
-func (e *explorer) describe(ds []diff) string {
-	var parts []string
-	for i, d := range ds {
-		if i >= 6 {
-			parts = append(parts, fmt.Sprintf("… %d more", len(ds)-i))
-			break
-		}
-		if d.observer < 0 {
-			parts = append(parts, "caller-held "+d.heldName)
-		} else if d.step >= 0 {
-			parts = append(parts, fmt.Sprintf("result of path step %d v%s", d.step+1, e.acts[d.observer].Expr))
-		} else {
-			parts = append(parts, "v"+e.acts[d.observer].Expr)
-		}
-	}
-	return strings.Join(parts, ", ")
-}
-
-func (e *explorer) reportPanic(path []int, out outcome) {
-	site := fw.PanicSite(shortStack(out.stack))
-	who := "snapshot"
-	if out.pstep >= 0 && out.pstep < len(path) {
-		who = e.acts[path[out.pstep]].Method
-	}
-	e.viol++
-	e.c.Report(fw.Violation{Fingerprint: who + "|panic|" + site, Order: order(e.idx, path), Scope: e.in.kind,
-		Input:    fmt.Sprintf("value %s (%s); calls: %s", e.in.name, e.in.kind, e.exprs(path)),
-		Observed: fmt.Sprintf("panic: %v at %s", out.panic, shortStack(out.stack)), Expected: "a result",
-		Explain: "a read-only method panicked (reported here, a violation of C03 proper)"})
-}
-
-func shortStack(s string) string {
-	var outl []string
-	for _, l := range strings.Split(s, "\n") {
-		if strings.Contains(l, "insomniacslk/dhcp") && !strings.HasPrefix(strings.TrimSpace(l), "/") {
-			outl = append(outl, strings.TrimSpace(l))
-		}
-		if len(outl) >= 6 {
-			break
-		}
-	}
-	return strings.Join(outl, " <- ")
-}
-
-// clause classifies what a violating action changed.
-func clause(a int, ds []diff) string {
-	other, self, hld := false, false, false
-	for _, d := range ds {
-		switch {
-		case d.observer < 0:
-			hld = true
-		case d.observer == a:
-			self = true
-		default:
-			other = true
-		}
-	}
-	switch {
-	case other:
-		return "mutates-receiver"
-	case self:
-		return "repeated-call-differs"
-	case hld:
-		return "mutates-caller-argument"
-	}
-	return "mutates-receiver"
-}
-
-func isPrefix(p, q []roview.Step) bool {
-	if len(p) >= len(q) {
-		return false
-	}
-	for i := range p {
-		if p[i] != q[i] {
-			return false
-		}
-	}
-	return true
-}
-
-type stats struct {
-	kind                              string
-	actions                           int
-	states, trans, paths, execs       int64
-	multi                             bool
-	viol                              int
-	methods                           map[string]bool
-	full, core                        int
-	coreExprs                         []string
-	subsumed, dropped, skippedBadPref int
-}
-
-func (e *explorer) explore(b bounds) stats {
-	st := stats{kind: e.in.kind, methods: map[string]bool{}}
-	c := e.c
-	// action discovery on a throw-away value
-	v0, _ := e.in.build()
-	e.acts = roview.Discover(v0, cfg)
-	n := len(e.acts)
-	st.actions = n
-	for _, a := range e.acts {
-		st.methods[a.Method] = true
-	}
-	e.ok, e.bad, e.base = make([]bool, n), make([]bool, n), make([]string, n)
-	e.states, e.trans, e.stateOf = map[uint64]bool{}, map[[3]uint64]bool{}, map[string]uint64{}
-	// baseline: every action alone on its own untouched value, twice (determinism of the library's output)
-	for i, a := range e.acts {
-		v, _ := e.in.build()
-		r := roview.Exec(v, a)
-		e.execs++
-		if r.Panic != nil {
-			e.reportPanic([]int{i}, outcome{panic: r.Panic, stack: r.Stack, pstep: 0})
-			st.dropped++
-			continue
-		}
-		v2, _ := e.in.build()
-		r2 := roview.Exec(v2, a)
-		e.execs++
-		if r.Text != r2.Text {
-			// twice more: is the difference the library's output varying between identical fresh values?
-			seen := map[string]bool{r.Text: true, r2.Text: true}
-			for k := 0; k < 2; k++ {
-				vk, _ := e.in.build()
-				seen[roview.Exec(vk, a).Text] = true
-				e.execs++
-			}
-			e.viol++
-			c.Report(fw.Violation{Fingerprint: a.Method + "|nondeterministic-result", Order: order(e.idx, []int{i}), Scope: e.in.kind,
-				Input:    fmt.Sprintf("value %s (%s); call v%s on identically built fresh values", e.in.name, e.in.kind, a.Expr),
-				Observed: fmt.Sprintf("%d different results on 4 identically built values, e.g. %s vs %s", len(seen), short(r.Text, 200), short(r2.Text, 200)),
-				Expected: "equal results", Explain: "the same read-only call on identical values returns different results (e.g. map iteration order visible)"})
-			st.dropped++
-			continue
-		}
-		e.base[i], e.ok[i] = r.Text, true
-	}
-	_, hs := e.in.build()
-	for _, h := range hs {
-		e.hbase = append(e.hbase, h.get())
-		e.hnames = append(e.hnames, h.name)
-	}
-	// initial state
-	out0 := e.run(nil)
-	if out0.panic != nil {
-		e.reportPanic(nil, out0)
-	}
-	baseTexts := make([]string, 0, n+len(e.hbase))
-	for i := range e.acts {
-		if e.ok[i] {
-			baseTexts = append(baseTexts, e.base[i])
-		}
-	}
-	baseTexts = append(baseTexts, e.hbase...)
-	e.s0 = e.snapshotHash(baseTexts)
-	e.states[e.s0] = true
-	e.stateOf[""] = e.s0
-	if out0.panic == nil && out0.state != e.s0 {
-		e.states[out0.state] = true // the snapshot procedure itself (all actions in order) moved the value; level 1 names the action
-	}
-
-	// level 1: every action
-	type l1 struct {
-		a   int
-		out outcome
-	}
-	var bads []l1
-	for a := 0; a < n; a++ {
-		if !e.ok[a] {
-			continue
-		}
-		out := e.run([]int{a})
-		if out.panic != nil {
-			e.reportPanic([]int{a}, out)
-			e.bad[a] = true
-			continue
-		}
-		e.record([]int{a}, out)
-		if len(out.diffs) > 0 {
-			e.bad[a] = true
-			bads = append(bads, l1{a, out})
-		}
-	}
-	// report level-1 violations, deepest receiver only (a method of a containing value that fails
-	// because a method of a contained value does is the same defect)
-	for _, x := range bads {
-		sub := false
-		for _, y := range bads {
-			if y.a != x.a && isPrefix(e.acts[x.a].Prefix(), e.acts[y.a].Prefix()) {
-				sub = true
-				break
-			}
-		}
-		if sub {
-			st.subsumed++
-			continue
-		}
-		a := e.acts[x.a]
-		d := e.bestDiff(x.out.diffs)
-		fp := a.Method + "|" + clause(x.a, x.out.diffs)
-		if a.Calls > 1 {
-			fp += "|through:" + a.Via
-		}
-		e.viol++
-		c.Report(fw.Violation{Fingerprint: fp, Order: order(e.idx, []int{x.a}), Scope: e.in.kind,
-			Input:    fmt.Sprintf("value %s (%s):\n%s\ncall: v%s", e.in.name, e.in.kind, e.in.src, a.Expr),
-			Observed: fmt.Sprintf("after the call, %d observation(s) differ from the untouched value: %s. E.g. %s: before %s, after %s", len(x.out.diffs), e.describe(x.out.diffs), e.obsName(d), short(d.want, 240), short(d.got, 240)),
-			Expected: "snapshot (encoding, every accessor result, caller-held argument slices) identical before and after a read-only call",
-			Explain:  "a read-only method changed the value it was called on (or the caller's slice it was built from)",
-			GoTest:   e.goTest([]int{x.a}, d)})
-	}
-
-	// level 2 over the full action set
-	full := b.full
-	if e.in.size > b.heavySize || int64(n)*int64(n)*int64(n+2) > b.maxExec {
-		full = 1
-	}
-	st.full = full
-	if full >= 2 {
-		for a1 := 0; a1 < n; a1++ {
-			if !e.ok[a1] || e.bad[a1] {
-				continue
-			}
-			if c.Over() {
-				break
-			}
-			for a2 := 0; a2 < n; a2++ {
-				if !e.ok[a2] {
-					continue
-				}
-				if e.bad[a2] {
-					st.skippedBadPref++ // its effect is already a reported violating transition from the same state
-					continue
-				}
-				p := []int{a1, a2}
-				out := e.run(p)
-				if out.panic != nil {
-					e.reportPanic(p, out)
-					continue
-				}
-				e.record(p, out)
-				if len(out.diffs) > 0 {
-					e.reportSeq(p, out)
-				}
-			}
-		}
-	}
-
-	// core: String, Summary, ToBytes, first non-empty list-typed accessor, that accessor's String
-	core := e.pickCore()
-	for _, ci := range core {
-		st.coreExprs = append(st.coreExprs, "v"+e.acts[ci].Expr)
-	}
-	maxCore := b.core
-	if e.in.size > b.heavySize {
-		maxCore = 2
-	}
-	st.core = maxCore
-	if len(core) > 0 {
-		var rec func(p []int)
-		rec = func(p []int) {
-			if len(p) > 0 {
-				s, done := e.stateOf[pathKey(p)]
-				if !done {
-					out := e.run(p)
-					if out.panic != nil {
-						e.reportPanic(p, out)
-						return
-					}
-					e.record(p, out)
-					if len(out.diffs) > 0 && len(p) >= 2 {
-						e.reportSeq(p, out)
-					}
-					s = out.state
-				}
-				if s != e.s0 {
-					return // violating state: reported, not expanded
-				}
-			}
-			if len(p) == maxCore || c.Over() {
-				return
-			}
-			for _, ci := range core {
-				rec(append(append([]int{}, p...), ci))
-			}
-		}
-		rec(nil)
-	}
-
-	st.states, st.trans, st.paths, st.execs = int64(len(e.states)), int64(len(e.trans)), e.paths, e.execs
-	st.multi = len(e.states) > 1
-	st.viol = e.viol
-	return st
-}
-
-func (e *explorer) obsName(d diff) string {
-	if d.observer < 0 {
-		return "caller-held " + d.heldName
-	}
-	return "v" + e.acts[d.observer].Expr
-}
-
-// reportSeq reports a violation that needs a sequence (no single action of it violates alone).
-func (e *explorer) reportSeq(p []int, out outcome) {
-	last, prev := e.acts[p[len(p)-1]], e.acts[p[len(p)-2]]
-	d := e.bestDiff(out.diffs)
-	e.viol++
-	e.c.Report(fw.Violation{Fingerprint: last.Method + "|" + clause(p[len(p)-1], out.diffs) + "|after:" + prev.Method, Order: order(e.idx, p), Scope: e.in.kind,
-		Input:    fmt.Sprintf("value %s (%s):\n%s\ncalls: %s", e.in.name, e.in.kind, e.in.src, e.exprs(p)),
-		Observed: fmt.Sprintf("after the sequence, %d observation(s) differ from the untouched value: %s. E.g. %s: before %s, after %s", len(out.diffs), e.describe(out.diffs), e.obsName(d), short(d.want, 240), short(d.got, 240)),
-		Expected: "snapshot identical before and after any sequence of read-only calls (no single call of this sequence changes it alone)",
-		Explain:  "a sequence of read-only calls changed the value",
-		GoTest:   e.goTest(p, d)})
-}
-
-func (e *explorer) pickCore() []int {
-	var core []int
-	has := func(i int) bool {
-		for _, c := range core {
-			if c == i {
-				return true
-			}
-		}
-		return false
-	}
-	addExpr := func(expr string) {
-		for i, a := range e.acts {
-			if a.Expr == expr && e.ok[i] && !e.bad[i] && !has(i) {
-				core = append(core, i)
-				return
-			}
-		}
-	}
-	addExpr(".String()")
-	addExpr(".Summary()")
-	addExpr(".ToBytes()")
-	// first list-typed accessor (non-empty result preferred) and a String on its result
-	pick := -1
-	for pass := 0; pass < 2 && pick < 0; pass++ {
-		for i, a := range e.acts {
-			if a.Calls == 1 && a.ListResult && (a.NonEmpty || pass == 1) && e.ok[i] && !e.bad[i] && !has(i) && a.LastName() != "ToBytes" {
-				// it must have a composite String
-				for j, bb := range e.acts {
-					if bb.Calls == 2 && strings.HasPrefix(bb.Expr, a.Expr) && bb.LastName() == "String" && e.ok[j] && !e.bad[j] {
-						pick = i
-						core = append(core, i, j)
-						break
-					}
-				}
-				if pick >= 0 {
-					break
-				}
-			}
-		}
-	}
-	// fill up to 5 with the first remaining actions
-	for i := range e.acts {
-		if len(core) >= 5 {
-			break
-		}
-		if e.ok[i] && !e.bad[i] && !has(i) {
-			core = append(core, i)
-		}
-	}
-	if len(core) > 5 {
-		core = core[:5]
-	}
-	return core
-}
-
 // ------------------------------------------------------------------ Run
 
 func Run(c *fw.Ctx) {
@@ -760,10 +203,11 @@ func Run(c *fw.Ctx) {
 		"results are compared through a structural renderer that calls no method of the value: exported fields, pointers followed, map keys sorted; unexported fields (private caches) are not observations",
 		"at most 3 elements (first two and last) of any slice are visited when enumerating actions on elements; composite actions are one accessor plus one method on (an element / exported field of) its result",
 		"no action depends on the clock: dhcpv6.GetTime()-based constructors are not used, DUID-LLT times are fixed")
-	b := bounds{full: 2, core: 4, maxExec: 3_000_000, heavySize: 1500}
+	b := bounds{full: 2, core: 4, budget: 100_000, budgetCore: 40_000}
 	if c.Thorough() {
-		b = bounds{full: 2, core: 6, maxExec: 40_000_000, heavySize: 4000}
+		b = bounds{full: 2, core: 6, budget: 250_000, budgetCore: 250_000}
 	}
+	defer debug.SetGCPercent(debug.SetGCPercent(400)) // short-lived garbage only; fewer collections
 	ins := catalogue(c.Thorough())
 	if f := os.Getenv("C20_ONLY"); f != "" { // development aid: restrict to values whose kind/name contains f
 		var sel []inst
@@ -778,7 +222,7 @@ func Run(c *fw.Ctx) {
 
 	var mu sync.Mutex
 	type agg struct {
-		values, multi, reduced         int
+		values, multi, redL2, redCore  int
 		actions, maxActions            int
 		states, trans, paths, execs    int64
 		methods                        map[string]bool
@@ -803,7 +247,7 @@ func Run(c *fw.Ctx) {
 				t0 := time.Now()
 				pv, stack := fw.Safe(func() { st = e.explore(b) })
 				if profile {
-					fmt.Fprintf(os.Stderr, "profile %-22s %-70s actions=%-4d size=%-6d full=%d paths=%-7d execs=%-9d %.2fs\n", ins[i].kind, short(ins[i].name, 70), st.actions, ins[i].size, st.full, st.paths, st.execs, time.Since(t0).Seconds())
+					fmt.Fprintf(os.Stderr, "profile %-22s %-70s actions=%-4d size=%-6d fullsnap=%v/%v paths=%-7d execs=%-9d %.2fs\n", ins[i].kind, short(ins[i].name, 70), st.actions, ins[i].size, st.fullSnapL2, st.fullSnapCore, st.paths, st.execs, time.Since(t0).Seconds())
 				}
 				if pv != nil {
 					c.Report(fw.Violation{Fingerprint: "harness|panic|" + fw.PanicSite(stack), Order: int64(i), Scope: ins[i].kind,
@@ -822,8 +266,11 @@ func Run(c *fw.Ctx) {
 				if st.multi {
 					a.multi++
 				}
-				if st.full < b.full {
-					a.reduced++
+				if !st.fullSnapL2 {
+					a.redL2++
+				}
+				if !st.fullSnapCore {
+					a.redCore++
 				}
 				a.actions += st.actions
 				if st.actions > a.maxActions {
@@ -835,7 +282,7 @@ func Run(c *fw.Ctx) {
 				a.execs += st.execs
 				a.subsumed += st.subsumed
 				a.dropped += st.dropped
-				a.skippedPref += st.skippedBadPref
+				a.skippedPref += st.notExp
 				for m := range st.methods {
 					a.methods[m] = true
 				}
@@ -882,7 +329,8 @@ func Run(c *fw.Ctx) {
 		surface[k] = map[string]any{"values": a.values, "distinct_type_methods": len(a.methods), "distinct_method_names": len(names),
 			"mean_actions_per_value": float64(a.actions) / float64(max(a.values, 1)), "max_actions_per_value": a.maxActions}
 		c.Scope(k, "values", a.values, "actions_total", a.actions, "max_actions_per_value", a.maxActions,
-			"full_set_sequence_length", b.full, "values_with_full_set_length_reduced_to_1", a.reduced, "core_sequence_length", b.core,
+			"full_set_sequence_length", b.full, "core_sequence_length", b.core,
+			"values_with_reduced_snapshot_at_length2_full_set", a.redL2, "values_with_reduced_snapshot_in_core_search", a.redCore,
 			"states", a.states, "transitions", a.trans, "paths", a.paths, "method_executions", a.execs,
 			"values_with_more_than_one_reachable_state", a.multi, "reports_subsumed_by_deeper_receiver", a.subsumed,
 			"actions_dropped_from_snapshot(panic/nondeterministic)", a.dropped, "length2_sequences_not_expanded_past_violating_action", a.skippedPref)
@@ -901,7 +349,9 @@ func Run(c *fw.Ctx) {
 	c.Extra("distinct_type_methods_total", len(ml))
 	c.Extra("type_methods", ml)
 	c.Extra("bounds", map[string]any{"full_action_set_max_length": b.full, "core_max_length": b.core,
-		"per_value_execution_cap_for_length2_full_search": b.maxExec, "encoded_size_above_which_bounds_are_reduced(full 1, core 2)": b.heavySize})
+		"per_value_execution_budget_above_which_the_reduced_snapshot_is_compared(length-2 full set)": b.budget,
+		"per_value_execution_budget_above_which_the_reduced_snapshot_is_compared(core search)":       b.budgetCore,
+		"reduced_snapshot": "core actions + the value's ToBytes + caller-held slices + the results of the sequence's own calls (length-1 sequences always get the full snapshot, each observation on its own fresh replay)"})
 	c.Sample(map[string]any{"sequence_shapes": []string{
 		"len 1 (full set): v := fresh(); v.String(); snapshot(v) == baseline",
 		"len 2 (full set): v := fresh(); v.Options.IANA(); v.Summary(); snapshot(v) == baseline",
